@@ -213,7 +213,7 @@ impl<'a> Ctx<'a> {
 
     /// Returns a reference to the last item on the local operating stack of the function that owns this [`Ctx`]
     pub fn get_last_op_item(&self) -> Option<&Primitive> {
-        self.stack.get(self.stack_size() - 1)
+        self.stack.last()
     }
 
     pub fn set_last_op_item(&mut self, item: Primitive) {
@@ -222,8 +222,7 @@ impl<'a> Ctx<'a> {
 
     /// Returns a mutable reference to the last item on the local operating stack of the function that owns this [`Ctx`]
     pub fn get_last_op_item_mut(&mut self) -> Option<&mut Primitive> {
-        let last_idx = self.stack_size() - 1;
-        self.stack.get_mut(last_idx)
+        self.stack.last_mut()
     }
 
     /// Get the `Display` format of the call stack. Principally used for Debug/Display purposes.
